@@ -509,6 +509,44 @@ func TestCheck(t *testing.T) {
 		})
 	})
 
+	// Phase D3: the value x unit arithmetic of the JSON object form (exact or refused, also for value literals written
+	// with a fraction or exponent: an integral one may be accepted with its exact value, anything else must be refused).
+	r.Phase("D3: JSON object form {value, unit}: boundary integers and fraction/exponent literals x units", func() {
+		lits := []string{"0", "1", "1023", "1024", "18446744073709551615", "18446744073709551616", "18014398509481983", "18014398509481984", "18014398509481985", "9007199254740993", "9007199254740993.0", "9007199254740992.0",
+			"1.0", "1.5", "1e3", "1E3", "10e-1", "1.00000000000000000001", "1023.99999999999999999", "0.999999999999999999999", "18446744073709551615.0", "1.8446744073709551615e19", "1.8446744073709551616e19", "-0", "-1", "1e30", "0e999", "16384", "17.0e0"}
+		r.Parallel(int64(len(lits)), 1, func(w *vkit.W, lo, hi int64) {
+			for i := lo; i < hi; i++ {
+				lit := lits[i]
+				rat, okRat := new(big.Rat).SetString(lit)
+				for _, u := range unitTexts {
+					doc := `{"value":` + lit + `,"unit":"` + u + `"}`
+					c := Case{Kind: "text", Text: vkit.B(doc), Rule: int(size.RuleEnableJSONObjectForm)}
+					got, err := size.DefaultParser(doc, size.RuleEnableJSONObjectForm)
+					got2, err2 := size.DefaultParser(w.Scratch(doc), size.RuleEnableJSONObjectForm|size.RuleEnableJSONStringForm)
+					if (err == nil) != (err2 == nil) || got != got2 {
+						w.Fail(c, "object-form-differs-between-inputs", fmt.Sprintf("DefaultParser(%s): string -> %d, %v; bytes -> %d, %v", doc, uint64(got), err, uint64(got2), err2))
+					}
+					plain := strings.Trim(lit, "0123456789") == ""
+					var want uint64
+					exactOK := false
+					if okRat && rat.IsInt() && rat.Sign() >= 0 {
+						v, known, fits := ref.Product(rat.Num(), u)
+						exactOK, want = known && fits, v
+					}
+					switch {
+					case err == nil && (!exactOK || uint64(got) != want):
+						w.Fail(c, "wrong-product", fmt.Sprintf("DefaultParser(%s) = %d; the value is %s, exact product fits: %v (%d)", doc, uint64(got), lit, exactOK, want))
+					case err != nil && exactOK && plain:
+						w.Fail(c, "exact-product-refused", fmt.Sprintf("DefaultParser(%s): exact product %d, library error %v", doc, want, err))
+					case err != nil && got != 0:
+						w.Fail(c, "nonzero-result-with-error", fmt.Sprintf("DefaultParser(%s): %v with result %d", doc, err, uint64(got)))
+					}
+					w.Eval(lit != "0")
+				}
+			}
+		})
+	})
+
 	// Phase E: rapid text grammar
 	r.Phase("E: rapid text grammar with separators, leading zeros, long numbers and negative cases", func() {
 		r.Rapid(t, "rapid-text", 0, r.Pick(40000, 2000000), func(rt *rapid.T, w *vkit.W) vkit.RapidCase {
